@@ -15,6 +15,10 @@ if [ -z "$notest" ]; then
   (cd "$wt" && PYTHONPATH="$wt" timeout 1500 /venv/bin/python -m pytest -q -p no:cacheprovider -n 10 --timeout=900 2>&1 | grep -E "^(FAILED|ERROR)|passed|failed" | tail -8)
 fi
 echo "== ./check $prop on changed tree"
+cp /verif/evidence/$prop.json /tmp/seed_evidence_$$.json 2>/dev/null
 cd /verif && VERIF_REPO="$wt" ./check "$prop" --tier quick > /tmp/seed_check_$$.log 2>&1
 echo "check exit: $?"
+# the evidence file must describe a run against /repo itself: restore it
+cp /tmp/seed_evidence_$$.json /verif/evidence/$prop.json 2>/dev/null; rm -f /tmp/seed_evidence_$$.json
+git -C /verif checkout -- coq/Gen 2>/dev/null
 grep -E "VIOLATION|KNOWN-FINDING|coq ok|Traceback" /tmp/seed_check_$$.log | head -8; rm -f /tmp/seed_check_$$.log
